@@ -444,10 +444,14 @@ func cmdReplay(prop, path string) int {
 		fmt.Println("no failing input is attached to this violation (no-failing-input-found)")
 		return 1
 	}
-	out, cmdline := runOverlayTest(rec.TestFile, "TestVerifReplay")
+	runName := "TestVerifReplay"
+	if rec.Shape == "wire-roundtrip" {
+		runName = "TestVerifWireReplay"
+	}
+	out, cmdline := runOverlayTest(rec.TestFile, runName)
 	fmt.Println(cmdline)
 	fmt.Println(out)
-	if strings.Contains(out, "REPLAY-PANIC") || strings.Contains(out, "fatal error") || strings.Contains(out, "panic:") {
+	if strings.Contains(out, "VERIF-REPRO") || strings.Contains(out, "REPLAY-PANIC") || strings.Contains(out, "fatal error") || strings.Contains(out, "panic:") {
 		fmt.Printf("VIOLATION property=%s replay=%s\n", rec.Property, path)
 		return 1
 	}
